@@ -85,12 +85,15 @@ func RunJob(j *Job) *Result {
 		var onState func(w *World) []*Violation
 		if j.Suffix {
 			onState = ConvergenceCheck
+		} else if j.Prop == "C10" && j.Strategy == "ddfs" {
+			onState = AutoLeaveEndCheck
 		}
 		choices := j.Strategy == "ddfs"
 		lim.Classify = func(path []Event, v *Violation) string {
 			return ClassifyKnown(j.Sc, mf, path, choices, v.Prop)
 		}
 		lim.Determinism = j.Prop == "C19"
+		lim.Convergence = j.Suffix
 		switch j.Strategy {
 		case "bfs":
 			lim.OnState = onState
@@ -139,6 +142,16 @@ func reproduces(j *Job, f *Found) bool {
 		if len(vs) == 0 && !w.Dead {
 			vs = ConvergenceCheck(w)
 		}
+	} else if j.Prop == "C10" && j.Strategy == "ddfs" && len(vs) == 0 {
+		// end-state oracle: run the execution to its quiescent end first
+		for i := 0; i < 5000; i++ {
+			ev, ok := w.nextDefault()
+			if !ok {
+				break
+			}
+			w.applyChoice(ev)
+		}
+		vs = AutoLeaveEndCheck(w)
 	}
 	for _, v := range vs {
 		if v.Prop == f.V.Prop && v.Oracle == f.V.Oracle {
